@@ -132,6 +132,9 @@ func (t *gnmiTee) Close() error {
 	return t.g.Close()
 }
 
+// CloseForWorld is called by World.Close.
+func (t *gnmiTee) CloseForWorld() { _ = t.Close() }
+
 func (t *gnmiTee) Requests() []*gnmi.SetRequest { return t.srv.take(t.user) }
 
 // canonGNMIValue renders a gNMI typed value canonically (like CanonTV for sdcpb values).
